@@ -1,10 +1,21 @@
 /* C02: EXDATE/EXRULE remove, RDATE adds.
  * Real code: src/evfilt.c (included textually): next_evfilt, make_evfilt;
- * src/range.h Allen relations; echs_event_range -> echs_instant_add
- * (src/instant.c).  Occurrence stream E and exception stream X are
- * array-backed with symbolic events; both carry the event's duration, as
- * make_task() builds them. */
-#include "evfilt.c"
+ * src/range.h Allen relations; src/event.h echs_event_range.  Occurrence stream E
+ * and exception stream X are array-backed with symbolic events; both carry the
+ * event's duration, as make_task() builds them.
+ *
+ * echs_event_range() calls echs_instant_add(), a division-heavy kernel that is
+ * C08's subject.  For the instant domain this harness uses (March 2024, day
+ * 1..20, whole hours, durations of whole hours up to 47 h, or all-day dates with
+ * durations of whole days) obligation -DADD_EQUIV proves the real
+ * echs_instant_add equal to the 6-line model below; the filter obligations then
+ * link the model instead of src/instant.c. */
+#if defined ADD_EQUIV
+# include <stdbool.h>
+# include "instant.h"
+#else
+# include "evfilt.c"
+#endif
 
 #if !defined NE
 # define NE 3
@@ -16,91 +27,127 @@
 # define NOPS 6
 #endif
 #define ARR_MAX (NE > NX ? NE : NX)
-#define INPUTS X(ne) X(nx) XA(te, NE) XA(tx, NX) X(dur) X(allday) XA(op, NOPS)
+#define INPUTS X(ne) X(nx) XA(de, NE) XA(he, NE) XA(dx, NX) XA(hx, NX) X(dur) X(allday) XA(op, NOPS)
 #include "sym.h"
-#include "arrstrm.h"
 
-void echs_evstrm_seria(int w, echs_const_evstrm_t s) { (void)w; (void)s; }
+#define MS_H	3600000LL
+#define MS_D	86400000LL
 
-/* instants of Feb/Mar 2024: t counts seconds from 2024-02-28T00:00:00, or
- * days from 2024-02-27 for all-day events */
-static echs_instant_t mkt(long long t, bool allday)
+static echs_instant_t mki(long long d, long long h, bool allday)
 {
 	echs_instant_t i = {.u = 0U};
-	i.y = 2024, i.m = 2;
+	i.y = 2024, i.m = 3, i.d = (unsigned)d;
 	if (allday) {
-		i.d = 27 + (unsigned)t;
 		i.H = ECHS_ALL_DAY;
 	} else {
-		i.d = 28 + (unsigned)(t / 86400);
-		i.H = (unsigned)(t % 86400 / 3600), i.M = (unsigned)(t % 3600 / 60), i.S = (unsigned)(t % 60);
-		i.ms = ECHS_ALL_SEC;
+		i.H = (unsigned)h, i.ms = ECHS_ALL_SEC;
 	}
-	return echs_instant_fixup(i);
+	return i;
 }
+
+/* the model: whole hours (or whole days) inside March 2024 */
+static echs_instant_t add_model(echs_instant_t b, echs_idiff_t a)
+{
+	if (a.d == 0) return b;
+	if (echs_instant_all_day_p(b)) {
+		b.d += (unsigned)(a.d / MS_D);
+		return b;
+	}
+	unsigned h = b.H + (unsigned)(a.d / MS_H);
+	if (h >= 48U) h -= 48U, b.d += 2U;
+	else if (h >= 24U) h -= 24U, b.d += 1U;
+	b.H = h;
+	return b;
+}
+
+#if defined ADD_EQUIV
+void harness(void)
+{
+	sym_load();
+	ASSUME(in.allday == 0 || in.allday == 1);
+	ASSUME(in.de[0] >= 1 && in.de[0] <= 20 && in.he[0] >= 0 && in.he[0] <= 23 && in.dur >= 0 && in.dur <= 47);
+	if (in.allday) ASSUME(in.dur <= 9);
+	const echs_instant_t b = mki(in.de[0], in.he[0], in.allday);
+	const echs_idiff_t a = {in.dur * (in.allday ? MS_D : MS_H)};
+	CHECK(echs_instant_add(b, a).u == add_model(b, a).u, "model equals echs_instant_add on the harness's instant domain");
+	CHECK(echs_instant_add(echs_nul_instant(), echs_nul_idiff()).u == 0U, "adding nothing to the nul instant is the nul instant");
+	WITNESS_POINT();
+}
+#else
+# include "arrstrm.h"
+echs_instant_t echs_instant_add(echs_instant_t b, echs_idiff_t a) { return add_model(b, a); }
+
+static struct arrstrm_s E, X;
 
 void harness(void)
 {
-	struct arrstrm_s E, X;
 	sym_load();
 	ASSUME(in.allday == 0 || in.allday == 1);
 	const bool ad = in.allday;
-	const long long unit = ad ? 86400000LL : 1000LL;
-	const long long tmax = ad ? 6 : 3 * 86400 - 1;
 	ASSUME(in.ne >= 0 && in.ne <= NE && in.nx >= 1 && in.nx <= NX);
 	arr_init(&E, (unsigned)in.ne);
 	arr_init(&X, (unsigned)in.nx);
 	/* duration: zero, or positive but shorter than the gap to the next occurrence */
-	ASSUME(in.dur >= 0 && in.dur <= tmax);
-	const echs_idiff_t dur = {in.dur * unit};
+	ASSUME(in.dur >= 0 && in.dur <= (ad ? 9 : 47));
+	const echs_idiff_t dur = {in.dur * (ad ? MS_D : MS_H)};
+	/* time line position in hours (days for all-day) */
+#define POS(d, h)	(ad ? (d) : (d) * 24 + (h))
 	for (unsigned k = 0; k < NE; k++) {
-		ASSUME(in.te[k] >= 0 && in.te[k] <= tmax);
-		if (k > 0) ASSUME(in.te[k] > in.te[k - 1] + in.dur);
-		E.ev[k] = (echs_event_t){.from = mkt(in.te[k], ad), .dur = dur, .oid = 7U};
+		ASSUME(in.de[k] >= 1 && in.de[k] <= 20 && in.he[k] >= 0 && in.he[k] <= 23);
+		if (ad) ASSUME(in.he[k] == 0);
+		if (k > 0) ASSUME(POS(in.de[k], in.he[k]) > POS(in.de[k - 1], in.he[k - 1]) + in.dur);
+		E.ev[k] = (echs_event_t){.from = mki(in.de[k], in.he[k], ad), .dur = dur, .oid = 7U};
 	}
 	for (unsigned k = 0; k < NX; k++) {
-		ASSUME(in.tx[k] >= 0 && in.tx[k] <= tmax);
-		if (k > 0) ASSUME(in.tx[k] > in.tx[k - 1]);
-		X.ev[k] = (echs_event_t){.from = mkt(in.tx[k], ad), .dur = dur, .oid = 7U};
+		ASSUME(in.dx[k] >= 1 && in.dx[k] <= 20 && in.hx[k] >= 0 && in.hx[k] <= 23);
+		if (ad) ASSUME(in.hx[k] == 0);
+		if (k > 0) ASSUME(POS(in.dx[k], in.hx[k]) > POS(in.dx[k - 1], in.hx[k - 1]));
+		X.ev[k] = (echs_event_t){.from = mki(in.dx[k], in.hx[k], ad), .dur = dur, .oid = 7U};
 	}
 #if defined KF_C02_2
 	/* known finding C02-2: an exception that names no occurrence but lies within
 	 * one duration of an occurrence removes that occurrence */
 	for (unsigned j = 0; j < NE; j++) for (unsigned k = 0; k < NX; k++) {
 		if (j < (unsigned)in.ne && k < (unsigned)in.nx) {
-			long long df = in.te[j] - in.tx[k];
+			long long df = POS(in.de[j], in.he[j]) - POS(in.dx[k], in.hx[k]);
 			ASSUME(df == 0 || df >= in.dur || -df >= in.dur);
 		}
 	}
 #elif defined KFONLY_C02_2
-	ASSUME(in.ne == 1 && in.nx == 1 && in.dur > 0 && in.te[0] != in.tx[0]);
-	ASSUME(in.te[0] - in.tx[0] < in.dur && in.tx[0] - in.te[0] < in.dur);
+	ASSUME(in.ne == 1 && in.nx == 1 && in.dur > 0);
+	{
+		long long df = POS(in.de[0], in.he[0]) - POS(in.dx[0], in.hx[0]);
+		ASSUME(df != 0 && df < in.dur && -df < in.dur);
+	}
 #endif
 	echs_evstrm_t f = make_evfilt((echs_evstrm_t)&E, (echs_evstrm_t)&X);
 	CHECK(f != NULL && f != (echs_evstrm_t)&E, "a filter is built when there are exceptions");
 	if (f == NULL || f == (echs_evstrm_t)&E) return;
 
 	/* expected: the occurrences whose start no exception names, in order */
-	long long want[NE];
+	bool keep[NE];
 	unsigned int nw = 0U;
 	for (unsigned j = 0; j < NE; j++) {
-		if (j < (unsigned)in.ne) {
-			bool named = false;
-			for (unsigned k = 0; k < NX; k++) {
-				named |= k < (unsigned)in.nx && in.tx[k] == in.te[j];
-			}
-			if (!named) want[nw++] = in.te[j];
+		bool named = false;
+		for (unsigned k = 0; k < NX; k++) {
+			named |= k < (unsigned)in.nx && in.dx[k] == in.de[j] && in.hx[k] == in.he[j];
 		}
+		keep[j] = j < (unsigned)in.ne && !named;
+		nw += keep[j];
 	}
-	unsigned int got = 0U;
+	unsigned int got = 0U, cur = 0U;	/* cur: index of the next kept occurrence */
 	bool have_peek = false;
 	echs_event_t peeked = {0};
 	for (unsigned o = 0; o < NOPS; o++) {
 		ASSUME(in.op[o] == 0 || in.op[o] == 1);
-		echs_event_t e = in.op[o] ? echs_evstrm_pop(f) : echs_evstrm_next(f);
+		echs_event_t e = in.op[o] ? next_evfilt(f, true) : next_evfilt(f, false);
+		/* advance to the next kept occurrence */
+		for (unsigned j = 0; j < NE; j++) {
+			if (cur == j && j < NE && !keep[j]) cur++;
+		}
 		if (got < nw) {
 			CHECK(!echs_event_0_p(e), "an occurrence that no exception names is never dropped");
-			CHECK(echs_instant_eq_p(e.from, mkt(want[got < NE ? got : 0], ad)), "occurrences are exactly those not named by an exception, in order");
+			CHECK(cur < NE && echs_instant_eq_p(e.from, E.ev[cur < NE ? cur : 0].from), "occurrences are exactly those not named by an exception, in order");
 		} else {
 			CHECK(echs_event_0_p(e), "an excluded occurrence is never delivered; the stream ends after the last kept one");
 		}
@@ -109,8 +156,9 @@ void harness(void)
 		}
 		have_peek = !in.op[o];
 		peeked = e;
-		if (in.op[o] && !echs_event_0_p(e)) got++;
+		if (in.op[o] && !echs_event_0_p(e)) got++, cur++;
 		CHECK(!arr_use_after_free, "no stream is used after it was freed");
 	}
 	WITNESS_POINT();
 }
+#endif
